@@ -64,6 +64,29 @@ var prop = vh.Define("C04", "wellformed", func(c Case, r *vh.R) {
 		sk := &rfSink{}
 		n, err = b.WriteTo(sk)
 		out = sk.got
+	case "counting-prewritten", "counting-prewritten-rf":
+		// the destination is itself a bundle.CountingWriter that has already carried other data
+		// (a second bundle appended to one stream): count and trailing length are per bundle
+		var inner io.Writer
+		var got *[]byte
+		if c.Sink == "counting-prewritten" {
+			sk := &plainSink{}
+			inner, got = sk, &sk.got
+		} else {
+			sk := &rfSink{}
+			inner, got = sk, &sk.got
+		}
+		cw := bundle.NewCountingWriter(inner)
+		prefix := gen.Filler(1+len(s.Exchanges)*37, 99)
+		if _, perr := cw.Write(prefix); perr != nil {
+			panic(perr)
+		}
+		n, err = b.WriteTo(cw)
+		out = (*got)[len(prefix):]
+		if !bytes.Equal((*got)[:len(prefix)], prefix) {
+			r.Failf("prefix-damaged", "data written to the destination before the bundle was altered")
+			return
+		}
 	default:
 		var buf bytes.Buffer
 		n, err = b.WriteTo(&buf)
@@ -154,7 +177,7 @@ var prop = vh.Define("C04", "wellformed", func(c Case, r *vh.R) {
 func TestPropWellFormed(t *testing.T) {
 	prop.Rapid(t, func(t *rapid.T) Case {
 		s := bundlekit.Gen(t)
-		return Case{Spec: *s, Sink: rapid.SampledFrom([]string{"buffer", "plain", "readerfrom"}).Draw(t, "sink")}
+		return Case{Spec: *s, Sink: rapid.SampledFrom([]string{"buffer", "plain", "readerfrom", "counting-prewritten", "counting-prewritten-rf"}).Draw(t, "sink")}
 	})
 }
 
